@@ -50,7 +50,9 @@ def run(chk):
         rf = (unparse(P.fill.iter), unparse(P.fi.iter).replace(P.tid_f, '@'))
         want = ('numba.prange(Nthread)', 'range(hstart[@], hstart[@ + 1])')
         chk.check(rc == rf == want, 'C10-R2', GH, name, 'count and fill pass iterate identical blocks', f'{rc}',
-                  f'count pass iterates {rc}, fill pass {rf}: rows are counted for one block and written for another', node=P.fill)
+                  (f'count pass iterates {rc}, fill pass {rf}: rows are counted for one block and written for another' if rc != rf else
+                   f'both passes iterate {rc[0]} over {rc[1]}, but the block table has Nthread + 1 edges: host blocks are skipped (or edges beyond the table are read) whenever the two counts differ'),
+                  node=P.fill)
         # R3
         okal = P.gs_alloc is not None and unparse(P.gs_alloc.value.args[0]) == '(Nthread + 1, 3)' and P.nout_alloc is not None and \
             unparse(P.nout_alloc.value).startswith('np.zeros((Nthread, 3,')
